@@ -122,6 +122,14 @@ func (s *store) Consume(ctx context.Context, consumerName string, f func(uint64,
 		if err != nil {
 			return err
 		}
+		// a process killed between creating the file and sizing it leaves it empty;
+		// mapping an empty file fails, which would stop consumption for good
+		if st, err := fd.Stat(); err == nil && st.Size() < 8 {
+			if err := fd.Truncate(8); err != nil {
+				fd.Close()
+				return err
+			}
+		}
 	}
 	stateOffset, err := gommap.Map(fd.Fd(), gommap.PROT_READ|gommap.PROT_WRITE, gommap.MAP_SHARED)
 	if err != nil {
